@@ -163,7 +163,7 @@ func c26Stream(rpc string, ctx context.Context) any {
 
 const c26Island = 1
 
-var c26CallTimeout = 4 * time.Second
+var c26CallTimeout = 6 * time.Second
 
 var c26Seeded = []string{"c26/seed/main", "c26/seed/other"}
 
